@@ -200,6 +200,21 @@ def run(ctx):
                 ctx.case(("soliton", m, phi, npol), {"soliton": {"beta2": b2, "T0_ps": T0, "gamma": g, "m": m, "phi_max": phi, "rel_err": e}})
         events.append({"kind": "order", "name": "soliton-error-shrinks-with-phi_max", "coarse_ppm": int(errs[(0.1, 1)] * 1e6), "fine_ppm": int(errs[(0.0125, 1)] * 1e6), "factor": 8})
         meta.append(("order", "soliton"))
+    # a long soliton (total nonlinear phase 14 pi): tens of thousands of steps at phi_max = 1e-3 - the error must keep shrinking with phi_max
+    b2, T0, g, m = 20.0, 10.0, 2.0, 14
+    P0 = b2 / (g * T0 ** 2)
+    L = math.pi * m / (g * P0)
+    fld = np.sqrt(P0) / np.cosh(tt / T0)
+    errs = {}
+    for phi in (4e-3, 1e-3):
+        with deadline(900):
+            o = FIBER(optical_signal(fld + 0j), L, 0.0, b2, 0.0, g, phi)
+        errs[phi] = float(np.max(np.abs(o.signal - (1j ** m) * fld)) / np.max(np.abs(fld)))
+        events.append({"kind": "conv", "name": "fundamental-soliton-error<=C*phi_max", "err_ppm": int(min(10 ** 9, errs[phi] * 1e6)), "phi_ppm": int(phi * 1e6)})
+        meta.append(("conv", "long-soliton", phi))
+    events.append({"kind": "order", "name": "soliton-error-shrinks-with-phi_max", "coarse_ppm": int(errs[4e-3] * 1e6), "fine_ppm": int(errs[1e-3] * 1e6), "factor": 4})
+    meta.append(("order", "long-soliton"))
+    ctx.case(("long-soliton", m), {"long soliton": {"total nonlinear phase": "14 pi", "rel_err": errs}})
     # convergence against an independent fixed-step reference integration of the same equation (symmetric split step, 4000 equal steps:
     # its own error is O(1/steps^2), far below the bounds judged), in the regimes the adaptive controller distinguishes
     def reference(f, L, al_dB, b2, b3, g, steps=4000):
